@@ -13,6 +13,7 @@ RULE = ('case = (generated storage-schemas.conf, storage-aggregation.conf, metri
         'non-trivial = name matching >=2 sections or none; distinct = (files, name)')
 RULE_MORE = (' Also: empty pattern values, zero-width and Unicode-dependent patterns, values containing ; and #, tagged and non-ASCII names, sections named DEFAULT (modelled as ConfigParser documents them).')
 RULE_MORE = RULE_MORE + ' Round 11: names with empty path elements and patterns about them.'
+RULE_MORE = RULE_MORE + ' Round 12: series first seen after a completed reload are created under the new files (or, dropped as droppedCreates, not at all).'
 RULE = RULE + RULE_MORE
 EXHAUSTIVE = {'quick': True, 'thorough': True}
 EXHAUSTIVE_OVER = 'all orders of every generated section set with <= 4 sections (quick: <= 3)'
